@@ -205,6 +205,23 @@ def run(ctx):
                     viol.append({"op": "renamescript", "args": "('old', 'new') emulated, old %s" % ("active" if act else "inactive"),
                                  "reply": "NO (%s) at %s" % (code or "no code", step),
                                  "what": "the server answered %s with NO (%s) but the emulated rename returned %s" % (step, code or "no code", out.split(" ")[0])})
+    # … and a BYE, a silent peer or a closed connection at any of its steps ends it with Error (never with a result)
+    for step in prop_C14.STEPS:
+        for fault in ("BYE", "SILENT"):
+            for act in (False, True):
+                srv = refserver.RefServer(r, scripts={b"old": b"keep;\r\n", b"by": b"stop;\r\n"}, active=(b"old" if act else None), version=False,
+                                          faults={step: fault})
+                s = msref.Session()
+                c_out = s.connect(b"", [], "user", "pw", server=srv)
+                out = s.op("renamescript", "old", "new")
+                evals += 1
+                nontriv += 1
+                reached = any(v == step for v, _, _, _ in srv.commands)
+                if reached and "res=error" not in out:
+                    viol.append({"op": "renamescript", "args": "('old', 'new') emulated, old %s" % ("active" if act else "inactive"),
+                                 "reply": "%s at %s" % ("BYE" if fault == "BYE" else "no reply", step),
+                                 "what": "the server answered %s with %s but the emulated rename ended with %s, not with Error" % (
+                                     step, "BYE" if fault == "BYE" else "silence", out.split(" ")[0])})
     model = run_driver(lines, live_table=False)
     diffs = [{"suite": "reader", "request": l[:300], "impl": e[:300], "model": m[:300]} for l, e, m in zip(lines, expect, model) if e != m]
     fresh, known = split_known("C09", viol, lambda f, v: False)
